@@ -4,15 +4,15 @@ integrated values, grid tabulations and path tabulations (in path order) as the 
 import os
 import shutil
 import sys
+import traceback
 import numpy as np
 
 import wannierberri as wb
-from wannierberri import run_grid as RG
 from ..common import quiet, maxdiff
-from ..rungrid_world import FakeRay, random_schedule
+from ..rungrid_world import FakeRay, random_schedule, raised_by_package
 
 
-def random_system(rng, nw=3):
+def random_system(rng, nw=3, return_ham=False):
     r = np.random.RandomState(rng.randrange(1 << 30))
     Rs = [(0, 0, 0), (1, 0, 0), (0, 1, 0), (0, 0, 1), (1, 1, 0)]
     ham = {}
@@ -28,36 +28,48 @@ def random_system(rng, nw=3):
     cen = r.rand(nw, 3)
     with quiet():
         s = wb.system.System_R.from_sparse(real_lattice=lat, wannier_centers_red=cen, matrices={"Ham": ham})
-    return s
+    return (s, ham) if return_ham else s
 
+
+
+_TAG = [None]
+
+
+def _scratch():
+    from ..common import WORK
+    return os.path.join(WORK, f"c12_par_tab_{_TAG[0] or os.getpid()}")
 
 
 def _fout():
-    """prefix of the files run() writes (scratch under /verif/.work, removed by the caller of check())"""
-    from ..common import WORK
-    d = os.path.join(WORK, "c12_par_tab")
+    """prefix of the files run() writes (scratch under /verif/.work, unique per check process, removed by check())"""
+    d = _scratch()
     os.makedirs(d, exist_ok=True)
     return os.path.join(d, "r")
 
 
-def run_with(system, grid, calcs, parallel, rng, ncpu, first_n, **kw):
+class Raised(Exception):
+    """the package raised inside run(): already reported, the caller goes on with the next input"""
+
+
+def run_with(rep, what, system, grid, calcs, parallel, rng, ncpu, first_n, **kw):
     events = []
     saved = sys.modules.get("ray")
     fake = None
-    orig = RG.process
     if parallel:
         fake = FakeRay(ncpu, random_schedule(rng, first_n), lambda e, f: events.append(f.get("t")))
         sys.modules["ray"] = fake
-
-        def pw(*a, **k):
-            fake.new_batch()
-            return orig(*a, **k)
-        RG.process = pw
     try:
         with quiet():
             res = wb.run(system, grid, calcs, parallel=parallel, fout_name=_fout(), print_progress_step_time=1e9, **kw)
+    except Exception as ex:
+        site = raised_by_package(ex)
+        if site is None:
+            raise
+        rep.violation(f"raises:{site}:{type(ex).__name__}",
+                      dict(what=f"run() raised ({what}, parallel={parallel}, ncpu={ncpu})", error=str(ex)[:400],
+                           traceback=traceback.format_exception(type(ex), ex, ex.__traceback__)[-8:], completion_order=events[:30]))
+        raise Raised() from ex
     finally:
-        RG.process = orig
         if fake is not None:
             if saved is not None:
                 sys.modules["ray"] = saved
@@ -66,16 +78,40 @@ def run_with(system, grid, calcs, parallel, rng, ncpu, first_n, **kw):
     return res, events
 
 
-def check(rep, rng, thorough):
+def direct_energies(ham, kpts):
+    """eigenvalues of H(k) = sum_R H(R) exp(2 pi i k.R) (what Energy tabulates), straight from the hopping dictionary"""
+    nw = 1 + max(i for d in ham.values() for i, _ in d)
+    out = []
+    for k in kpts:
+        H = np.zeros((nw, nw), dtype=complex)
+        for R, d in ham.items():
+            ph = np.exp(2j * np.pi * np.dot(k, R))
+            for (i, j), v in d.items():
+                H[i, j] += v * ph
+        out.append(np.linalg.eigvalsh((H + H.conj().T) / 2))
+    return np.array(out)
+
+
+def check(rep, rng, thorough, tag=None):
+    _TAG[0] = tag
+    try:
+        _check(rep, rng, thorough)
+    finally:
+        shutil.rmtree(_scratch(), ignore_errors=True)
+
+
+def _check(rep, rng, thorough):
     from wannierberri import calculators as calc
     n = 6 if thorough else 2
     tol = 1e-10
+    count = dict(grid_integrals=0, grid_tabulations=0, path_tabulations=0, path_energy_vs_direct=0)
     for it in range(n):
-        system = random_system(rng)
+        system, ham = random_system(rng, return_ham=True)
         Ef = np.linspace(-2, 2, 7)
         # --- grid: integration + tabulation, with refinement
         with quiet():
             grid = wb.Grid(system, NKdiv=[3, 2, 2], NKFFT=[2, 2, 2])
+
         def icalcs():
             return {"ahc": calc.static.AHC(Efermi=Ef, kwargs_formula={"external_terms": False}),
                     "dos": calc.static.DOS(Efermi=Ef)}
@@ -83,42 +119,59 @@ def check(rep, rng, thorough):
         def tcalcs():
             return {"tab": calc.TabulatorAll({"Energy": calc.tabulate.Energy(), "berry": calc.tabulate.BerryCurvature(kwargs_formula={"external_terms": False})}, ibands=[0, 1, 2], mode="grid")}
         kw = dict(use_irred_kpt=False, symmetrize=False)
-        i_ser, _ = run_with(system, grid, icalcs(), False, rng, 1, True, adpt_num_iter=2, **kw)
-        t_ser, _ = run_with(system, grid, tcalcs(), False, rng, 1, True, adpt_num_iter=0, **kw)
+        try:
+            i_ser, _ = run_with(rep, "grid integration", system, grid, icalcs(), False, rng, 1, True, adpt_num_iter=2, **kw)
+            t_ser, _ = run_with(rep, "grid tabulation", system, grid, tcalcs(), False, rng, 1, True, adpt_num_iter=0, **kw)
+        except Raised:
+            continue
         for ncpu in (2, 3):
             for first_n in (True, False):
-                i_par, order = run_with(system, grid, icalcs(), True, rng, ncpu, first_n, adpt_num_iter=2, **kw)
-                rep.case(("grid", it, ncpu, first_n, tuple(order[:12])))
+                try:
+                    i_par, order = run_with(rep, "grid integration", system, grid, icalcs(), True, rng, ncpu, first_n, adpt_num_iter=2, **kw)
+                    t_par, order_t = run_with(rep, "grid tabulation", system, grid, tcalcs(), True, rng, ncpu, first_n, adpt_num_iter=0, **kw)
+                except Raised:
+                    continue
+                count["grid_integrals"] += 1
                 for k in ("ahc", "dos"):
                     d = maxdiff(i_ser.results[k].data, i_par.results[k].data)
                     if not d <= tol * max(1.0, float(np.abs(i_ser.results[k].data).max())):
                         rep.violation(f"par_vs_serial:grid:{k}", dict(ncpu=ncpu, first_n=first_n, completion_order=order, maxdiff=d))
-                t_par, order = run_with(system, grid, tcalcs(), True, rng, ncpu, first_n, adpt_num_iter=0, **kw)
-                rep.case(("gridtab", it, ncpu, first_n, tuple(order[:12])))
+                count["grid_tabulations"] += 1
                 ts, tp = t_ser.results["tab"], t_par.results["tab"]
                 if maxdiff(ts.kpoints, tp.kpoints) > 1e-12:
-                    rep.violation("par_vs_serial:grid:tab.kpoints", dict(ncpu=ncpu, completion_order=order))
+                    rep.violation("par_vs_serial:grid:tab.kpoints", dict(ncpu=ncpu, completion_order=order_t))
                     continue
                 for q in ("Energy", "berry"):
                     d = maxdiff(ts.get_data(quantity=q, iband=[0, 1, 2]), tp.get_data(quantity=q, iband=[0, 1, 2]))
                     if not d <= 1e-8:
-                        rep.violation(f"par_vs_serial:grid:tab.{q}", dict(ncpu=ncpu, first_n=first_n, completion_order=order, maxdiff=d))
+                        rep.violation(f"par_vs_serial:grid:tab.{q}", dict(ncpu=ncpu, first_n=first_n, completion_order=order_t, maxdiff=d))
         # --- path
         nodes = [[0, 0, 0], [0.5, 0, 0], [0.5, 0.5, 0], None, [0, 0.5, 0.5], [0.3, 0.1, 0.7]]
         with quiet():
             path = wb.Path.from_nodes(system, nodes=nodes, nk=[5, 4, 6])
-        kp = path.K_list
+        kp = np.asarray(path.K_list)
+        e_direct = direct_energies(ham, kp)
+
         def pcalcs():
             return {"tab": calc.TabulatorAll({"Energy": calc.tabulate.Energy(), "berry": calc.tabulate.BerryCurvature(kwargs_formula={"external_terms": False})}, ibands=[0, 1, 2], mode="path")}
-        r_ser, _ = run_with(system, path, pcalcs(), False, rng, 1, True, k_batch=2)
+        try:
+            r_ser, _ = run_with(rep, "path tabulation", system, path, pcalcs(), False, rng, 1, True, k_batch=2)
+        except Raised:
+            continue
         for ncpu in (2, 3):
             for first_n in (True, False):
                 for kb in (1, 2, 4):
-                    r_par, order = run_with(system, path, pcalcs(), True, rng, ncpu, first_n, k_batch=kb)
-                    rep.case(("path", it, ncpu, first_n, kb, tuple(order[:12])))
+                    try:
+                        r_par, order = run_with(rep, "path tabulation", system, path, pcalcs(), True, rng, ncpu, first_n, k_batch=kb)
+                    except Raised:
+                        continue
+                    count["path_tabulations"] += 1
                     tp, ts = r_par.results["tab"], r_ser.results["tab"]
-                    dk = tp.kpoints - kp
-                    if tp.kpoints.shape != kp.shape or np.abs(dk - np.round(dk)).max() > 1e-9:
+                    inorder = np.shape(tp.kpoints) == kp.shape
+                    if inorder:
+                        dk = tp.kpoints - kp
+                        inorder = np.abs(dk - np.round(dk)).max() <= 1e-9
+                    if not inorder:
                         rep.violation("par_path:order", dict(ncpu=ncpu, k_batch=kb, completion_order=order,
                                                              what="k-points of the parallel path tabulation are not in path order"))
                         continue
@@ -126,14 +179,28 @@ def check(rep, rng, thorough):
                         d = maxdiff(ts.get_data(quantity=q, iband=[0, 1, 2]), tp.get_data(quantity=q, iband=[0, 1, 2]))
                         if not d <= 1e-8:
                             rep.violation(f"par_path:{q}", dict(ncpu=ncpu, k_batch=kb, first_n=first_n, completion_order=order, maxdiff=d))
-    rep.part("parallel_vs_serial_real_calculators", systems=n, note="numeric comparison serial vs schedule-controlled parallel, tol 1e-8")
+                    # each point its own values: the energies against a direct diagonalisation at the path points
+                    e_tab = np.asarray(tp.get_data(quantity="Energy", iband=[0, 1, 2]))
+                    if e_tab.shape == e_direct.shape:
+                        count["path_energy_vs_direct"] += 1
+                        d = maxdiff(np.sort(e_tab, axis=1), e_direct)
+                        if not d <= 1e-7 * max(1.0, float(np.abs(e_direct).max())):
+                            rep.violation("par_path:Energy_vs_direct", dict(ncpu=ncpu, k_batch=kb, first_n=first_n, completion_order=order, maxdiff=d,
+                                                                            what="tabulated band energies along the path differ from eigvalsh of the Fourier sum at the same k-points"))
+    rep.part("numeric_only", what="serial vs schedule-controlled parallel run() with real calculators (AHC, DOS with 2 refinement "
+             "iterations; grid and path tabulations of Energy and Berry curvature, k_batch 1/2/4, 2 and 3 workers, both ray.wait "
+             "answer policies); path energies also against direct diagonalisation; no TLA+ model of self_to_path / self_to_grid: "
+             "this part does not carry the model_checking level", systems=n, tolerance="1e-10 relative (integrals), 1e-8 absolute (tabulations)",
+             comparisons=count)
     if thorough:
         real_ray_smoke(rep)
 
 
 def real_ray_smoke(rep):
-    """one run with the real ray (4 CPUs) against the serial run"""
+    """one run with the real ray (4 CPUs) against the serial run; anything the ray runtime does wrong under load is
+    recorded as skipped, never as a violation or a crash"""
     import random
+    from ..common import seed
     try:
         import ray
         ray.init(num_cpus=4, include_dashboard=False, logging_level="ERROR")
@@ -142,19 +209,28 @@ def real_ray_smoke(rep):
         return
     try:
         from wannierberri import calculators as calc
-        rng = random.Random(5)
+        rng = random.Random(seed() * 7919 + 5)
         system = random_system(rng)
         Ef = np.linspace(-2, 2, 5)
         with quiet():
             grid = wb.Grid(system, NKdiv=[3, 3, 2], NKFFT=[2, 2, 2])
-            cs = lambda: {"dos": calc.static.DOS(Efermi=Ef), "ahc": calc.static.AHC(Efermi=Ef)}
-            rs = wb.run(system, grid, cs(), parallel=False, adpt_num_iter=1, use_irred_kpt=False, symmetrize=False, fout_name=_fout())
-            rp = wb.run(system, grid, cs(), parallel=True, adpt_num_iter=1, use_irred_kpt=False, symmetrize=False, fout_name=_fout())
+            cs = lambda: {"dos": calc.static.DOS(Efermi=Ef), "ahc": calc.static.AHC(Efermi=Ef)}  # noqa: E731
+            kw = dict(adpt_num_iter=0, use_irred_kpt=False, symmetrize=False, fout_name=_fout())   # no refinement: workers in
+            rs = wb.run(system, grid, cs(), parallel=False, **kw)                                   # other processes may round
+            try:                                                                                   # a near-tie differently
+                rp = wb.run(system, grid, cs(), parallel=True, **kw)
+            except Exception as ex:
+                if raised_by_package(ex) is not None:
+                    raise
+                rep.part("real_ray_smoke", skipped=f"ray runtime: {type(ex).__name__}: {str(ex)[:160]}")
+                return
         for k in ("dos", "ahc"):
             d = maxdiff(rs.results[k].data, rp.results[k].data)
-            rep.case(("realray", k))
             if not d <= 1e-9 * max(1.0, float(np.abs(rs.results[k].data).max())):
                 rep.violation(f"par_vs_serial:realray:{k}", dict(maxdiff=d))
-        rep.part("real_ray_smoke", ran=True)
+        rep.part("real_ray_smoke", ran=True, compared=["dos", "ahc"])
     finally:
-        ray.shutdown()
+        try:
+            ray.shutdown()
+        except Exception:
+            pass
